@@ -46,3 +46,14 @@ CLAIMS["C13"] = (
     "Schedules (interleavings of workers, concurrent SevenZipFile objects) have no semantics in any verifier available here and are excluded from the claim; Thread/Process/Queue behave as their documented contracts (assumed). Known finding F05: with mp=True worker errors are lost (Process copies the queue).",
     "DESIGN.md 7 (C13)",
 )
+
+CLAIMS["C15"] = (
+    "Exceptional postconditions (strong exception safety) proved on writestr/writef/_writestr/_writef/write: every rejection raised by these methods themselves (bad name, unsupported stream/data type) happens before any member list is touched; an accepted member is appended to all three member lists and archived once; for write() every exception raised before Worker.archive leaves the lists unchanged.",
+    "Abstract mode (opaque objects; list.append does not raise). Known finding F06: write() registers the member before Worker.archive opens the source. A source failing midway through being read is only covered by the C04 guards.",
+    "DESIGN.md 7 (C15)",
+)
+CLAIMS["C16"] = (
+    "check_archive_path proved equivalent to the independent definition for ALL names (fold over pathlib parts with a depth invariant, both directions incl. a witness for rejections): accept iff not absolute and the lexical depth never goes negative; writestr/writef proved to reject with ValueError before any state change exactly when the check fails and to delegate otherwise.",
+    "pathlib's parser (parts / is_absolute as functions of the string) is an assumed contract; _sanitize_archive_arcname (write/writeall path) is covered where listed in the evidence, else excluded.",
+    "DESIGN.md 7 (C16)",
+)
